@@ -265,6 +265,8 @@ class Run:
                 self.undecided.append(f"{n}: {reason}; no bounded stand-in: {why}")
                 continue
             n_eval = sum(r["evaluations"] for r in res)
+            if rep not in self.unit_reports:
+                self.unit_reports.append(rep)
             rep["status"] = "bounded-stand-in"
             rep["stand_in"] = {"groups": groups, "evaluations": n_eval, "label": "bounded: never counted as discharged"}
             self.standins.append(f"unit={n} contract not attachable to this tree ({reason[:140]}); bounded check of the function stands in: groups {','.join(groups)}, {n_eval} evaluations")
